@@ -110,6 +110,13 @@ def builtin(ex, name, pos, kw, st: State) -> SV:
         v = pos[0]
         if v.kind == 'val' and v.ty is not None and v.ty.kind in ('list', 'dict'):
             v = sv_ref(ex.as_ref(v, st, 'len'), T(v.ty.kind, v.ty.cls, v.ty.elem))
+        if v.kind == 'val' and (v.ty is None or v.ty.kind == 'val'):
+            # dynamically typed: a list or a dict / set (anything else: TypeError exit)
+            isl = z3.And(is_VRef(v.t), st.h.cls(v_a(v.t)) == CLS_LIST)
+            isd = z3.And(is_VRef(v.t), z3.Or(st.h.cls(v_a(v.t)) == CLS_DICT, st.h.cls(v_a(v.t)) == CLS_SET))
+            ex.side_raise(st, 'TypeError', z3.Not(z3.Or(isl, isd)), 'len() of a non-container')
+            st.assume(z3.And(st.h.size(v_a(v.t)) >= 0, st.h.len(v_a(v.t)) >= 0))
+            return sv_int(z3.If(isl, st.h.len(v_a(v.t)), st.h.size(v_a(v.t))))
         if v.kind == 'ref' and v.cls == 'list': return sv_int(ex.list_len(v.t, st))
         if v.kind == 'ref' and v.cls in ('dict', 'set'):
             st.assume(st.h.size(v.t) >= 0)
